@@ -136,6 +136,7 @@ static void check_all(Case &c, const uint8_t *msg, size_t n, size_t off, uint32_
         uint8_t c7 = igris_mmc_crc7(m.d, (uint8_t)n), r7 = ref_crc7(msg, n);
         VP_CHECK(c7 == r7, "crc7_value", "crc7=%02x ref=%02x", c7, r7);
     }
+    if (n <= 65535)
     {
         uint16_t v = igris_crc16(m.d, (uint16_t)n, s16), r = ref_crc16(msg, n, s16);
         VP_CHECK(v == r, "crc16_value", "crc16=%04x ref=%04x", v, r);
@@ -212,6 +213,53 @@ static void crc_random(Src &s, Case &c)
 VP_TARGET("crc", crc_random,
           "random message 0..255 bytes at offset 0..7 of an exactly-sized block, random seed and "
           "split; non-trivial = length >= 2 and (length mod 4 != 0 or start not 4-aligned)");
+
+// Long messages: igris_crc16 takes a 16-bit and igris_crc32 a 32-bit length, so lengths beyond 255 are in
+// their domain (the 8-bit-length functions are skipped there, igris_crc16 above 65535).
+static void crc_long(Src &s, Case &c)
+{
+    size_t n;
+    switch (s.weighted({3, 2, 2, 2, 1}))
+    {
+    case 0:
+        n = (size_t)s.range(256, 300);
+        break;
+    case 1:
+        n = (size_t)s.range(301, 5000);
+        break;
+    case 2:
+        n = (size_t)s.range(65520, 65535);
+        break;
+    case 3:
+        n = (size_t)s.range(65536, 65560);
+        break;
+    default:
+        // 65536 words = 262144 bytes: the word count of igris_crc32 passes 16 bits
+        n = s.coin() ? (size_t)s.range(65561, 140000) : (size_t)s.range(262130, 262160);
+    }
+    size_t off = (size_t)s.below(8);
+    uint32_t seed = s.below(3) == 0 ? 0 : s.u32();
+    size_t split = s.coin() ? (size_t)s.below(n + 1) : (size_t)s.pick({(size_t)0, (size_t)255, (size_t)256, (size_t)257, n - 256, n - 1, n});
+    if (split > n)
+        split = n;
+    size_t plen = (size_t)s.range(1, 12);
+    uint8_t pat[12];
+    for (size_t i = 0; i < plen; i++)
+        pat[i] = s.u8();
+    std::vector<uint8_t> msg(n);
+    for (size_t i = 0; i < n; i++)
+        msg[i] = (uint8_t)(pat[i % plen] + (uint8_t)(i / 251) * 29u);
+    c.log("n=%zu off=%zu seed=%08x split=%zu pattern=%s", n, off, seed, split, hexdump(pat, plen, 12).c_str());
+    c.nontrivial = true;
+    c.label(n <= 65535 ? "crc16_and_crc32" : "crc32_only");
+    if (n % 4)
+        c.label("crc32_tail");
+    check_all(c, msg.data(), n, off, seed, split);
+}
+VP_TARGET("crc_long", crc_long,
+          "messages of 256..262160 bytes (around 256, 65535/65536, 262144 = 65536 words, and in between; a drawn 1..12 byte pattern varied per "
+          "251-byte block) through igris_crc16 (length <= 65535), igris_crc32 and the streaming CRC-8: value against the "
+          "bit-serial references and chaining at a random or boundary split; every case is non-trivial");
 
 // exhaustive: all (seed, byte) pairs; all messages of length <= 4 (quick) /
 // <= 6 (thorough) over {00,01,80,FF} x seeds {00,FF,5A}
